@@ -412,11 +412,18 @@ func (a *App) Run(w Widget) error {
 					return err
 				}
 			case vaxis.FocusIn:
+				if len(mh.lastHits) > 0 {
+					// the pointer is known to be inside already
+					break
+				}
 				cmd, err := w.HandleEvent(MouseEnter{}, TargetPhase)
 				if err != nil {
 					return err
 				}
 				a.handleCommand(cmd)
+				// remember it, so that it is matched by exactly one
+				// MouseLeave (on the next hit test or on FocusOut)
+				mh.lastHits = append(mh.lastHits, hitResult{w: w})
 			case vaxis.FocusOut:
 				mh.mouse = nil
 				err := mh.mouseExit(a)
